@@ -110,12 +110,13 @@ def warm_grid(grid, mask: int):
             f()
 
 
-def derive_grid(grid, steps, min_size: int = 1):
+def derive_grid(grid, steps, min_size: int = 1, fractional: bool = False):
     """Apply derivation steps (vlib.gen.derivation_steps) to a deepali Grid with deepali's own methods.
 
     Every intermediate grid is warmed up (read-only calls) before the next step and must be left intact by it.
     Returns the final grid and the list of operations actually applied.  Raises Skip when a step would leave
-    fewer than `min_size` samples along an axis or produce a fractional internal size."""
+    fewer than `min_size` samples along an axis or (unless `fractional`) produce a fractional internal size
+    (deepali keeps the unrounded size of e.g. downsample() of an odd size; size() is its ceiling)."""
     import copy
     import pickle
 
@@ -133,7 +134,7 @@ def derive_grid(grid, steps, min_size: int = 1):
             new = grid.spacing([float(s) * f for s, f in zip(grid.spacing().tolist(), step["factor"])])
         elif op == "resample":
             # coarser spacing only along axes whose size it divides (keeps the derived size integral)
-            fac = [f if f < 1 or a % int(f) == 0 and a // int(f) >= min_size else 1.0 / f for a, f in zip(n, step["factor"])]
+            fac = [f if f < 1 or (fractional or a % int(f) == 0) and a // int(f) >= min_size else 1.0 / f for a, f in zip(n, step["factor"])]
             new = grid.resample([float(s) * f for s, f in zip(grid.spacing().tolist(), fac)])
         elif op == "direction":
             new = grid.direction(torch.tensor(ref.direction_matrix(step["dir"]["rot"], step["dir"]["perm"], step["dir"]["flip"]), dtype=torch.float64))
@@ -154,7 +155,7 @@ def derive_grid(grid, steps, min_size: int = 1):
             new = grid.reshape(size[::-1]) if op == "reshape" else getattr(grid, op)(size)
         elif op in ("downsample", "upsample"):
             k = 2 ** int(step["levels"])
-            dims = [i for i, a in enumerate(n) if a % k == 0 and a // k >= max(min_size, 2)] if op == "downsample" else []
+            dims = [i for i, a in enumerate(n) if (fractional or a % k == 0) and a // k >= max(min_size, 2)] if op == "downsample" else []
             if not dims:
                 op, dims = "upsample", [i for i, a in enumerate(n) if a >= 2]
             if not dims:
@@ -186,12 +187,21 @@ def derive_grid(grid, steps, min_size: int = 1):
             raise ValueError(op)
         if new is not grid:
             assert_grid_intact(grid, state, f"Grid.{op}() (derivation of a new grid)")
-        if not bool(torch.equal(new._size, new._size.round())):
+        if not fractional and not bool(torch.equal(new._size, new._size.round())):
             raise Skip("derived grid has a fractional internal size")
         if any(int(v) < min_size for v in new.size()):
             raise Skip("derived grid too small")
         applied.append(op)
         grid = new
+    if fractional and bool(torch.equal(grid._size, grid._size.round())):
+        # requested: a grid whose internal size is fractional - halve the axes with an odd number (>= 3) of samples
+        odd = [i for i, a in enumerate(int(v) for v in grid.size()) if a % 2 == 1 and a >= max(3, 2 * min_size - 1)]
+        if odd:
+            state = grid_state(grid)
+            new = grid.downsample(1, dims=odd)
+            assert_grid_intact(grid, state, "Grid.downsample() (derivation of a new grid)")
+            applied.append("downsample")
+            grid = new
     return grid, applied
 
 
